@@ -198,6 +198,7 @@ func runC17(r *engine.Run) {
 		return
 	}
 	r.Rule = "E1. Frequency: decode(encode(f)) = f for (quick) every multiple of 100 Hz in 100..1000 MHz and 2.4..2.5 GHz plus every Hz of twenty 10 kHz windows, (thorough) every Hz value 0..2^32; Percentage: every integer -1000..1000; HEXBytes: lengths 0..40 x 3 fillers x {plain, 0x-prefixed, upper case}; ISO8601Time: every second of four days (years 1, 1970, 2038, 9999) x zone {Z, +05:30, -08:00}; each of the 20 payload structs with every subset of its optional (pointer / omitempty) fields present (up to 2^10 subsets) x 3 value variants, compared field by field after json.Marshal/json.Unmarshal. Key envelopes: KEK length {16,24,32} x KEK(2) x key(3) x label {'', 'lbl'}: blob equals an independent RFC 3394 wrap, Unwrap returns the key, every single-bit flip of the blob (192), wrong KEK and truncated/extended blobs: Unwrap succeeds iff the independent integrity check passes. Non-trivial: a value that was encoded, decoded and compared."
+	c17History(r)
 	r.Assume("encoding/json and strconv are trusted; RFC 3394 is re-implemented in mc/spec/crypto.go and self-tested on the RFC vectors")
 
 	// ---- Frequency
@@ -483,4 +484,72 @@ func fieldByIndexSafe(v reflect.Value, index []int) (reflect.Value, bool) {
 		v = v.Field(i)
 	}
 	return v, true
+}
+
+// c17History: key envelopes and text/JSON forms as a history alphabet. The KEK
+// buffer of a sequence is one slice the caller overwrites in place (key rotation).
+func c17History(r *engine.Run) {
+	keks := [][]byte{bytes.Repeat([]byte{0x11}, 16), bytes.Repeat([]byte{0x22}, 16), bytes.Repeat([]byte{0x33}, 32)}
+	keys := []lorawan.AES128Key{{1, 2, 3, 4, 5, 6, 7, 8, 9, 10, 11, 12, 13, 14, 15, 16}, {0xF0, 0xF1, 0xF2, 0xF3}}
+	var ops []HOp
+	wrap := func(name, label string, ki int, key lorawan.AES128Key, shared bool) {
+		ops = append(ops, HOp{name, func(ctx HCtx) interface{} {
+			kek := append([]byte(nil), keks[ki]...)
+			if shared {
+				// one buffer per length, overwritten in place with the KEK now in force
+				id := fmt.Sprintf("kek%d", len(kek))
+				buf, _ := ctx[id].([]byte)
+				if buf == nil {
+					buf = make([]byte, len(kek))
+					ctx[id] = buf
+				}
+				copy(buf, kek)
+				kek = buf
+			}
+			env, err := backend.NewKeyEnvelope(label, kek, key)
+			if err != nil {
+				return &hChecked{[]interface{}{"error"}, "NewKeyEnvelope refused a " + fmt.Sprint(len(kek)) + "-byte KEK: " + err.Error()}
+			}
+			problem := ""
+			want := spec.KeyWrap(keks[ki], key[:])
+			if !bytes.Equal(env.AESKey, want) {
+				problem = fmt.Sprintf("envelope for KEK %x key %x is %x, RFC 3394 wrap is %x", keks[ki], key[:], []byte(env.AESKey), want)
+			}
+			got, uerr := env.Unwrap(append([]byte(nil), keks[ki]...))
+			if problem == "" && (uerr != nil || got != key) {
+				problem = fmt.Sprintf("the envelope does not open with the KEK it was made with (%v)", uerr)
+			}
+			return &hChecked{env, problem}
+		}})
+	}
+	for ki := range keks {
+		for kj, key := range keys {
+			wrap(fmt.Sprintf("NewKeyEnvelope(lbl,KEK%d,key%d)", ki, kj), "lbl", ki, key, false)
+			wrap(fmt.Sprintf("NewKeyEnvelope(lbl,KEK%d-in-reused-buffer,key%d)", ki, kj), "lbl", ki, key, true)
+		}
+		wrap(fmt.Sprintf("NewKeyEnvelope(other,KEK%d-in-reused-buffer,key0)", ki), "other", ki, keys[0], true)
+	}
+	ops = append(ops, HOp{"NewKeyEnvelope(no-label)", func(HCtx) interface{} {
+		env, err := backend.NewKeyEnvelope("", keks[0], keys[0])
+		return []interface{}{env, errS(err)}
+	}}, HOp{"NewKeyEnvelope(lbl,bad-KEK-length)", func(HCtx) interface{} {
+		env, err := backend.NewKeyEnvelope("lbl", []byte{1, 2, 3}, keys[0])
+		return []interface{}{env, errS(err)}
+	}})
+	for i, hb := range []backend.HEXBytes{{1, 2, 3}, {0xAA, 0xBB, 0xCC, 0xDD, 0xEE}, {}} {
+		hb := hb
+		ops = append(ops, HOp{fmt.Sprintf("HEXBytes#%d.MarshalText", i), func(HCtx) interface{} {
+			b, err := hb.MarshalText()
+			return []interface{}{b, errS(err)}
+		}}, HOp{fmt.Sprintf("json(HEXBytes#%d)", i), func(HCtx) interface{} {
+			b, err := json.Marshal(struct{ X backend.HEXBytes }{hb})
+			return []interface{}{b, errS(err)}
+		}})
+	}
+	d := 2
+	if r.Thorough() {
+		d = 3
+	}
+	r.Rule += historyRule + fmt.Sprintf(" Key-envelope alphabet: NewKeyEnvelope for 3 KEKs (16/16/32 bytes) x 2 keys x 2 labels with the KEK in a fresh slice or in the sequence's reused KEK buffer (overwritten in place), each compared with the independent RFC 3394 wrap and opened with its own KEK; label-less and refused calls; HEXBytes text/JSON forms; all sequences of <= %d calls.", d)
+	historyPart(r, "history/key-envelopes", ops, d)
 }
